@@ -84,7 +84,7 @@ theorem beams_mask_confined (e : DEnv S) (π : S → Row) (c : BeamCfg) (plus : 
     | cons buf' rest =>
       simp only [beamStep, hbufs]
       rw [btActs_cons, ← hbufs]
-      simp only [stepBuf, parentOf, selectedOf, topInd_flat c top hb, flat_mod hb]
+      simp only [stepBuf, parentOf_eq, selectedOf_eq, topInd_flat c top hb, flat_mod hb]
       have hrow : b + (top b).getD k 0 / c.N * c.B = (kept c top b k).1 * c.B + b := by
         simp [kept, Nat.add_comm]
       rw [hrow, admittedForced_snoc _ _ _ _ (btActs_ne_nil _ _ hinv.nonempty _), ih b hb _ hkt.1]
@@ -116,7 +116,7 @@ theorem beam_head_is_start (e : DEnv S) (π : S → Row) (c : BeamCfg) (plus : I
   | @step st top hreach hvalid ih =>
     intro b hb k hk
     have hinv := beamInv_of_reach e π c plus start s0 hreach
-    obtain ⟨hlen, _, hlt, _⟩ := hvalid b hb
+    obtain ⟨hlen, _, hlt, _⟩ := validTop_closed (hvalid b hb)
     have hp := hlt _ (getD_mem (l := top b) (k := k) (by omega))
     obtain ⟨k', hk', hh⟩ := ih b hb _ (div_lt_of_lt_mul hp)
     refine ⟨k', hk', ?_⟩
@@ -125,7 +125,7 @@ theorem beam_head_is_start (e : DEnv S) (π : S → Row) (c : BeamCfg) (plus : I
     | cons buf' rest =>
       simp only [beamStep, hbufs]
       rw [btActs_cons, ← hbufs]
-      simp only [stepBuf, parentOf, topInd_flat c top hb, flat_mod hb]
+      simp only [stepBuf, parentOf_eq, topInd_flat c top hb, flat_mod hb]
       rw [Nat.add_comm b]
       have hne := btActs_ne_nil c.B st.bufs hinv.nonempty ((top b).getD k 0 / c.N * c.B + b)
       cases hx : btActs c.B st.bufs ((top b).getD k 0 / c.N * c.B + b) with
